@@ -101,6 +101,8 @@ pub struct ViolationReport {
    pub entries: Vec<String>,
    /// everything needed to rebuild the programs of this case without the generator
    pub members: Vec<serde_json::Value>,
+   /// history / schedule of the case where the property has one (JSON)
+   pub ops: Option<String>,
 }
 
 #[derive(Serialize, Clone, Debug)]
@@ -161,6 +163,7 @@ pub fn par_plan(prop: &str, tier: &str) -> ParPlan {
 static PROGRESS: AtomicU64 = AtomicU64::new(0);
 
 fn tick() { PROGRESS.fetch_add(1, Ordering::Relaxed); }
+pub fn tick_progress() { tick() }
 
 fn start_watchdog(limit: Duration) {
    std::thread::spawn(move || {
@@ -181,7 +184,7 @@ fn start_watchdog(limit: Duration) {
    });
 }
 
-fn panic_message(p: Box<dyn std::any::Any + Send>) -> String {
+pub fn panic_message(p: Box<dyn std::any::Any + Send>) -> String {
    if let Some(s) = p.downcast_ref::<&str>() {
       s.to_string()
    } else if let Some(s) = p.downcast_ref::<String>() {
@@ -361,7 +364,7 @@ pub fn show_db(db: &Db) -> String {
    s
 }
 
-fn hash64(s: &str) -> u64 {
+pub fn hash64(s: &str) -> u64 {
    // FNV-1a
    let mut h: u64 = 0xcbf29ce484222325;
    for b in s.bytes() {
@@ -440,7 +443,7 @@ pub fn build_groups<'a>(entries: &'a [Entry], only: Option<&str>) -> Result<Vec<
    Ok(groups)
 }
 
-fn signature(prop: &str, failures: &[Failure]) -> String {
+pub fn signature(prop: &str, failures: &[Failure]) -> String {
    let f = &failures[0];
    match f.kind.as_str() {
       "panic" => format!("{prop}:{}:panic:{}", f.variant_class(), f.panic_msg.clone().unwrap_or_default()),
@@ -497,7 +500,10 @@ pub fn run_main(entries: Vec<Entry>) -> ! {
                break;
             }
             let group = &groups[gi];
-            run_group(&args, group, &plan, &result, &nontrivial_set);
+            match args.prop.as_str() {
+               "C13" => crate::history::run_group_history(&args, group, &result, &nontrivial_set),
+               _ => run_group(&args, group, &plan, &result, &nontrivial_set),
+            }
          });
       }
    });
@@ -637,6 +643,7 @@ fn run_group(
          shrunk,
          entries: group.members.iter().map(|m| m.entry.name.to_string()).collect(),
          members: members_json(group),
+         ops: None,
       };
       result.lock().unwrap().violations.push(rep);
    } else if let Err(TestError::Abort(reason)) = run {
@@ -648,6 +655,8 @@ fn run_group(
 struct ReplayFile {
    base: String,
    input: Db,
+   #[serde(default)]
+   ops: Option<String>,
 }
 
 /// Re-executes one saved case (bypassing the generators). Exit 1 if it still fails.
@@ -670,6 +679,15 @@ fn replay(args: &Args, groups: &[Group], plan: &ParPlan, path: &str) -> i32 {
       eprintln!("replay: base {} not in this batch", rf.base);
       return 2;
    };
+   if args.prop == "C13" {
+      let ops: Vec<crate::history::Op> = serde_json::from_str(rf.ops.as_deref().unwrap_or("[\"Run\",\"Run\"]")).expect("ops");
+      let out = crate::history::run_history(group, &rf.input, &ops);
+      let failed = !out.failures.is_empty();
+      let j = serde_json::json!({"replayed": 1, "failed": failed as u32, "failures": out.failures,
+         "signature": if failed { Some(detail_signature(&args.prop, &out.failures)) } else { None }});
+      std::fs::write(&args.out, serde_json::to_string_pretty(&j).unwrap()).ok();
+      return if failed { 1 } else { 0 };
+   }
    let any_par = group.members.iter().any(|m| m.meta.kind.is_par());
    let reps = if any_par { 200 } else { 1 };
    let mut fails = 0;
